@@ -7,6 +7,14 @@ import Mahotas.Proofs.C14Families
 namespace Mahotas.C14
 open Mahotas
 
+theorem filterMap_congr' {α β : Type} {f g : α → Option β} (l : List α) (h : ∀ a ∈ l, f a = g a) :
+    l.filterMap f = l.filterMap g := by
+  induction l with
+  | nil => rfl
+  | cons a t ih =>
+    simp only [List.filterMap_cons, h a (by simp)]
+    rw [ih (fun b hb => h b (by simp [hb]))]
+
 /-! ### the centre position -/
 
 theorem subPos_zero_iff (a b : List Int) (h : a.length = b.length) :
@@ -61,7 +69,7 @@ theorem getD_setIfInBounds_int (a : Array Int) (i j : Nat) (v : Int) :
 theorem neighbours_setCentre (S : List Nat) (bc : Array Int) (v : Int) :
     neighbours S (bc.setIfInBounds (ravelI S (centreOf S)) v) = neighbours S bc := by
   unfold neighbours
-  apply List.filterMap_congr
+  apply filterMap_congr'
   intro i hi
   have hi' : i < shapeSize S := List.mem_range.mp hi
   simp only []
@@ -77,7 +85,7 @@ theorem neighbours_setCentre (S : List Nat) (bc : Array Int) (v : Int) :
 theorem rawOffsets_removeCentre (S : List Nat) (bc : Array Int) :
     rawOffsets S (removeCentre S bc) = neighbours S bc := by
   unfold rawOffsets neighbours removeCentre
-  apply List.filterMap_congr
+  apply filterMap_congr'
   intro i hi
   have hi' : i < shapeSize S := List.mem_range.mp hi
   simp only []
@@ -86,13 +94,14 @@ theorem rawOffsets_removeCentre (S : List Nat) (bc : Array Int) :
   · have hz := (isZero_offset_iff S i hi').mpr hc
     rw [hz]
     by_cases h2 : ravelI S (centreOf S) < bc.size
-    · rw [if_pos ⟨hc.symm, h2⟩]; simp
+    · rw [if_pos (And.intro hc.symm h2)]; simp
     · have h0 : bc.getD i 0 = 0 := by
         rw [Array.getD_eq_getD_getElem?, Array.getElem?_eq_none (by omega)]; rfl
       have : ¬ (ravelI S (centreOf S) = i ∧ ravelI S (centreOf S) < bc.size) := fun h => h2 h.2
       rw [if_neg this, h0]; simp
   · have hz : isZeroPos (subPos (unravelI S i) (centreOf S)) = false := by
-      have := (isZero_offset_iff S i hi').not.mpr hc
+      have : ¬ isZeroPos (subPos (unravelI S i) (centreOf S)) = true :=
+        fun h => hc ((isZero_offset_iff S i hi').mp h)
       simpa using this
     have : ¬ (ravelI S (centreOf S) = i ∧ ravelI S (centreOf S) < bc.size) := fun h => hc h.1.symm
     rw [if_neg this, hz, Bool.or_false]
@@ -205,7 +214,7 @@ theorem locAt_eq_clamped (isMin : Bool) (A : Img Int) (nb : List (List Int)) (p 
     (hs : ∀ d ∈ A.shape, 0 < d) : locAt isMin A nb p = locClampedSpecAt isMin A nb p := by
   unfold locAt locClampedSpecAt
   apply List.all_congr rfl
-  intro k _
+  intro k
   rw [C01.readNearest_eq A _ hs]
 
 end Mahotas.C14
